@@ -682,5 +682,5 @@ M('C16', 'renderer-local-unbound-when-tool-missing', PP, "        output, n = r.
 M('C02', 'replace-arm-reads-valuelist', PATCH, "        elif op == DiffOp.REPLACE:\n            # Add replacement value and skip old\n            newobj.append(e.value)", "        elif op == DiffOp.REPLACE:\n            # Add replacement value and skip old\n            newobj.extend(e.valuelist)", 'R02.9')
 M('C02', 'remove-folded-into-replace-arm', PATCH, "        elif op == DiffOp.REMOVE:\n            # Delete values obj[index] by incrementing take to skip\n            skip = 1\n        elif op == DiffOp.REPLACE:\n            # Add replacement value and skip old\n            newobj.append(e.value)\n            skip = 1",
   "        elif op in (DiffOp.REMOVE, DiffOp.REPLACE):\n            # Replace (or drop) the old value\n            newobj.append(e.value)\n            skip = 1", 'R02.9')
-T('C02', 'twin-op-alias-renamed', PATCH, "        op = e.op\n        index = e.key\n\n        # Take values from obj not mentioned in diff, up to not including index\n        newobj.extend(copy.deepcopy(value) for value in obj[take:index])\n\n        if op == DiffOp.ADDRANGE:",
-  "        kind = e.op\n        op = kind\n        index = e.key\n\n        # Take values from obj not mentioned in diff, up to not including index\n        newobj.extend(copy.deepcopy(value) for value in obj[take:index])\n\n        if e.op == DiffOp.ADDRANGE:")
+T('C02', 'twin-op-alias-renamed', PATCH, "    for e in diff:\n        op = e.op\n        index = e.key\n        assert isinstance(index, int), 'list key must be integer'",
+  "    for e in diff:\n        kind = e.op\n        op = kind\n        index = e.key\n        assert isinstance(index, int), 'list key must be integer'")
